@@ -883,6 +883,15 @@ func evalFunctionCall(node *jparse.FunctionCallNode, data reflect.Value, env *en
 		return undefined, newEvalError(ErrNonCallable, node.Func, nil)
 	}
 
+	// Built-in and extension functions are shared by every
+	// expression in the process. Give this call its own copy
+	// so that the name and context set below cannot be seen
+	// (or overwritten) by nested or concurrent calls.
+	if gc, ok := fn.(*goCallable); ok {
+		c := *gc
+		fn = &c
+	}
+
 	if setter, ok := fn.(nameSetter); ok {
 		if sym, ok := node.Func.(*jparse.VariableNode); ok {
 			setter.SetName(sym.Name)
